@@ -12,9 +12,9 @@ from . import sched_common as sc
 from .. import common
 from ..schedlib import CACHE, layout, model_request, run_impl
 
-MODULES = sc.MODULES
+MODULES = sc.MODULES + ["Net", "Output", "OutputLemmas", "Props.C05Run", "Props.C03Run", "Props.C01Run"]
 GEN_OBLIGATIONS = sc.GEN_OBLIGATIONS
-THEOREM_DEPS = []
+THEOREM_DEPS = ["C01Run"]
 
 SIG_F15 = "integration-zero-length-repeat"
 SIG_F16 = "pull-fanout-eviction"
@@ -90,6 +90,38 @@ def corpus():
     ]
 
 
+def gen_net(rng):
+    """compositions for the network correspondence: time-stepped components, links through Scale / DelayFixed only
+    (every request reaches the source output), fan-out, several links between one pair, start offsets"""
+    s = sc.gen_dag(rng, kinds=["scale", "dfix", "dfix"], pull_comps=False, statics=False, max_chain=2)
+    s["record_retained"] = True
+    return s
+
+
+def check_net(specs, res):
+    """retained history length of every output after every update, and every pull answered: model vs package"""
+    from ..schedlib import net_request
+    reqs, orders = zip(*[net_request(s) for s in specs]) if specs else ([], [])
+    models = common.lean_batch(list(reqs))
+    for s, m, order in zip(specs, models, orders):
+        impl = run_impl(s)
+        res.case(sc.slim(s), len(impl["updates"]) >= 3)
+        res.count("network_cases")
+        f = oracle(s, impl)
+        if f:
+            res.fail(sc.slim(s), f[0], f[1], f[2])
+            if f[2] is not None:
+                continue
+        inv = {i: c for i, c in enumerate(order)}
+        m_ups = [[inv[u], lens] for u, lens, _ok in m["updates"]]
+        if impl["error"] is None and (m["end"] != "done" or impl["retained"] != m_ups):
+            k = next((i for i, (a, b) in enumerate(zip(impl["retained"], m_ups)) if a != b), min(len(impl["retained"]), len(m_ups)))
+            res.diverge("net/retained-history", sc.slim(s), {"first_difference": k, "impl": impl["retained"][k:k + 3],
+                                                             "model": m_ups[k:k + 3], "model_end": m["end"]}, None)
+        elif impl["error"] is None and not all(ok for _u, _l, ok in m["updates"]):
+            res.diverge("net/pull-answers", sc.slim(s), {"impl": "all pulls served"}, "model refuses a pull")
+
+
 def run(ctx, res):
     res.rule = ("random coupling DAGs: 2-5 components (time-stepped with scripted varying steps and start offsets, "
                 "pull-based with 1-2 outputs), 1-2 links per consumer with adapter chains of length 0-3 over "
@@ -100,6 +132,7 @@ def run(ctx, res):
                        "bare NoDependencyAdapter markers are outside the guarantee (the user declares independence)"]
     specs = corpus() + [gen(ctx) for _ in range(ctx.n(300, 6000))]
     sc.run_cases(specs, res, [oracle])
+    check_net([gen_net(ctx.rng) for _ in range(ctx.n(120, 2500))], res)
 
 
 def search(ctx, res, divergences, broken):
